@@ -13,7 +13,8 @@ func usage() {
 	fmt.Fprintln(os.Stderr, `tablelint — repository-specific static analyzer for weedbox/pokertable
   tablelint check -p C01 [-tier quick|thorough] [-repo /repo] [-verif /verif]
   tablelint explain <replay.json>
-  tablelint dump [-repo /repo] [-fn substr]     (debug: stores, calls, guards)`)
+  tablelint dump [-repo /repo] [-fn substr]     (debug: stores, calls, guards)
+  tablelint sweep -mode equiv|fault [-out f.json] [-j N] [-only path] [-stride n]   (tests the checker, not the repo)`)
 	os.Exit(2)
 }
 
@@ -30,6 +31,10 @@ func main() {
 		os.Exit(cmdDump(os.Args[2:]))
 	case "control":
 		os.Exit(cmdControl(os.Args[2:]))
+	case "sweep":
+		os.Exit(cmdSweep(os.Args[2:]))
+	case "variant":
+		os.Exit(cmdVariant(os.Args[2:]))
 	default:
 		usage()
 	}
